@@ -129,3 +129,10 @@ Theorem sparse_flat_onehot_before_the_fix_refuted :
   ModelEncodeSparse.flat1 7%Z [((7%Z, None), ModelEncodeSparse.SCat 2 3); ((8%Z, None), ModelEncodeSparse.SNum 5)]
     = [((8%Z, None), ModelEncodeSparse.SNum 5); ((7%Z, Some 2%nat), ModelEncodeSparse.SNum 1)].
 Proof. exact ProofsEncodeSparse.flat1_old_refuted. Qed.
+
+(* ... and the forms that put ONE value where the categorical stood ('string': its level name, 'onehot_tuple': its one-hot tuple), over dense rows nested to any depth:
+   the in-place assignments o[k] = f(o[k]) over the places of the categoricals, collections below first, are the eager replacement *)
+From Coba Require C13.ModelEncodeInPlace C13.ProofsEncodeInPlace.
+Theorem string_and_tuple_encodings_are_the_in_place_replacement : forall f v, ModelEncodeInPlace.iencode f v = ModelEncodeInPlace.ieager f v.
+Proof. exact ProofsEncodeInPlace.iencode_eq_eager. Qed.
+Print Assumptions string_and_tuple_encodings_are_the_in_place_replacement.
